@@ -248,6 +248,26 @@ def nest_offsets(d, out=None):
     return out
 
 
+def indent_nest_offsets(d, out=None):
+    """nest offsets that are indentation: hang(n) = align(nest(n, ..)) of comment.rs is alignment relative to the comment start and is skipped"""
+    if out is None:
+        out = []
+    if d.k == 'nest':
+        out.append(d.a)
+        indent_nest_offsets(d.b, out)
+    elif d.k in ('cat', 'flat_alt'):
+        indent_nest_offsets(d.a, out)
+        indent_nest_offsets(d.b, out)
+    elif d.k == 'group':
+        indent_nest_offsets(d.a, out)
+    elif d.k == 'align':
+        inner = d.a
+        if inner.k == 'nest':
+            inner = inner.b
+        indent_nest_offsets(inner, out)
+    return out
+
+
 def layout_broken(d, col, indent=0):
     """Lay a doc out with every group broken, starting at column `col` (python int) with the given
     indentation.  Text atoms must be Str; columns are counted in code points (the texts laid out by
